@@ -7,6 +7,11 @@ from checkcfg import PROPS
 BASELINE = json.load(open('/root/.vp/BASELINE.json'))['cmd'] if os.path.exists('/root/.vp/BASELINE.json') else ''
 
 TEXT = {
+ "C03": dict(
+   technique="property-based testing (rapid): generated wallets/chains/transactions/flags/passphrase attempt sequences; oracle = independent consensus script-engine run + ECDSA verification under independently derived keys + field-wise comparison",
+   text="Wallets imported from generated mnemonics receive coins through a generated chain (standard, coinbase, staking, old and new binding outputs on several addresses; optionally outputs of still-pending transactions). Transactions over 1..6 of the selected wallet's unspent outputs (consensus sequences, 1..6 outputs, lock time, payload) are signed with each of the six sighash flags under attempt sequences mixing the right passphrase with wrong ones (edit distance 1, prefix, case change, other wallet's, empty, over-long, non-alphabet bytes, padded). Right passphrase: must succeed, returned bytes must decode to the same transaction in every non-witness field (and same txid), every input must execute in a fresh txscript engine against the spent output (MASSip2 flag by parent height), the witness script must be the 1-of-1 redeem script of the address and the signature must verify (ECDSA) under the public key the harness derived itself (BIP-39/BIP-32 reference) over the engine's digest for that flag. Wrong passphrase: error, nil bytes, caller's transaction untouched - also directly after a success. One defect found (panic on a pending parent) was repaired (fix: 5b7907c). Exploration: sampled.",
+   note="Trusted: mass-core txscript engine and digest (consensus), btcec. For the two SINGLE modes the generator keeps #outputs >= #inputs (documented precondition). Wallets whose path crosses the C14 known finding are not generated.",
+   ref="DESIGN.md §3 C03"),
  "C12": dict(
    technique="stateful property-based testing (rapid state machine) with an address-issuance reference model and an independent key derivation; restore compared with the statement's scan rule",
    text="For gap limits 2..8, generated sequences of new-address requests (standard / staking), payments to arbitrary issued addresses, reorganisations removing recent payments, and wallet restarts are run on the real wallet; each issued address must equal the harness's own BIP-39/BIP-32 derivation at the next external index (class form), be distinct from all earlier ones, stay listed by GetAddresses (also after restart) with used == the best chain pays it; NewAddress must fail with the gap error exactly when none of the last gap-limit addresses has chain history and succeed otherwise. Finally the mnemonic is restored in a fresh instance with a generated index hint and the discovered address count must equal the scan rule (derive until gap-limit consecutive unused), which contains every funded address the rule can reach, with correct used flags after the rescan. One defect found (issued address vanished from the list after a reorg removed its first payment) was repaired (fix: 0304e7f). Exploration: sampled histories.",
